@@ -1,11 +1,114 @@
 import Cfi.Files
 import Spec.C12
-/-! C12 — property theorems (being extended: stream accounting lemmas). -/
+import Proofs.Accounting
+/-! C12 — property theorems: for EVERY content, EVERY block list (any begin/end
+patterns), text and binary storage. -/
 namespace Props.C12
-open Cfi
+open Cfi Cfi.Regex
+
+variable {α : Type} [DecidableEq α]
 
 /-- writing a default block re-emits its line; a raw block re-emits what it stored -/
-theorem write_dflt {α} (l : List α) : writeBElem (BElem.dflt l) = l := rfl
-theorem write_block {α} (i : Nat) (raw : List (List α)) : writeBElem (BElem.block i raw) = raw.flatten := rfl
+theorem write_dflt (l : List α) : writeBElem (BElem.dflt l) = l := rfl
+theorem write_block (i : Nat) (raw : List (List α)) : writeBElem (BElem.block i raw) = raw.flatten := rfl
+
+theorem rest_length_of_accounts {raw : List α} {s s' : Stream α} (h : Accounts raw s s') (hp : s.pos < s'.pos) :
+    s'.rest.length < s.rest.length := by
+  have := h.pos
+  have hr := congrArg List.length h.rest
+  simp at hr
+  omega
+
+/-- **Full accounting**: whatever the loop produces from a stream position
+concatenates (through the elements' own `write`) to exactly the unread input —
+no input lost, none duplicated. -/
+theorem loop_accounts (nl : α) (binary : Bool) (blocks : List (BlockDef α)) :
+    ∀ (fuel : Nat) (s : Stream α), s.rest.length < fuel →
+      (readBlockLoop nl binary blocks fuel s).flatMap writeBElem = s.rest := by
+  intro fuel
+  induction fuel with
+  | zero => intro s h; omega
+  | succ fuel ih =>
+    intro s h
+    simp only [readBlockLoop]
+    by_cases hr : s.rest = []
+    · -- nothing left: the peek is empty
+      have hp : (if binary then (s.read 1).1 else (s.readline nl).1).isEmpty = true := by
+        cases binary <;> simp [Stream.read, Stream.readline_fst, hr, Stream.lineOf]
+      simp [hp, hr]
+    · have hp : (if binary then (s.read 1).1 else (s.readline nl).1).isEmpty = false := by
+        cases binary
+        · have := lineOf_ne_nil nl hr
+          cases hl : Stream.lineOf nl s.rest with
+          | nil => exact absurd hl this
+          | cons _ _ => simp [Stream.readline_fst, hl]
+        · cases hr' : s.rest with
+          | nil => exact absurd hr' hr
+          | cons c cs => simp [Stream.read, hr']
+      rw [hp]
+      simp only [Bool.false_eq_true, if_false]
+      split
+      · -- a declared block is selected
+        rename_i i hi
+        have hlt : i < blocks.length := (List.findIdx?_eq_some_iff_getElem.mp hi).1
+        rw [List.getElem?_eq_getElem hlt]
+        simp only
+        cases binary
+        · simp only [Bool.false_eq_true, if_false]
+          have hacc := accounts_readRawBlock nl blocks[i] (s.content.length + 1) s
+          have hprog := readRawBlock_progress nl blocks[i] s.content.length s hr
+          have hnle : ¬ (readRawBlock nl blocks[i] (s.content.length + 1) s).2.pos ≤ s.pos := by omega
+          rw [if_neg hnle]
+          have hl := rest_length_of_accounts hacc hprog
+          simp only [List.flatMap_cons, write_block]
+          rw [ih _ (by omega), ← hacc.rest]
+        · simp only [if_true]
+          have hacc := accounts_readRawBinBlock nl blocks[i] (s.content.length + 1) s
+          have hprog := readRawBinBlock_progress nl blocks[i] s.content.length s hr
+          have hnle : ¬ (readRawBinBlock nl blocks[i] (s.content.length + 1) s).2.pos ≤ s.pos := by omega
+          rw [if_neg hnle]
+          have hl := rest_length_of_accounts hacc hprog
+          simp only [List.flatMap_cons, write_block, List.flatten_cons, List.flatten_nil, List.append_nil]
+          rw [ih _ (by omega), ← hacc.rest]
+      · -- no block begins here: one default line
+        have hacc := accounts_readline nl s
+        have hprog := readline_progress nl s hr
+        have hl := rest_length_of_accounts hacc hprog
+        simp only [List.flatMap_cons, write_dflt]
+        rw [ih _ (by omega), ← hacc.rest]
+
+/-- **C12 main theorem**: for every content `x` (nested-looking markers,
+unterminated blocks, no final newline, empty…), every block list and both
+storages: the stored raw data concatenate to `x` and writing the file that was
+read reproduces `x` exactly. -/
+theorem write_read_id (nl : α) (binary : Bool) (blocks : List (BlockDef α)) (x : List α) :
+    writeBlockFile (readBlockFile nl binary blocks x) = x := by
+  simp only [writeBlockFile, readBlockFile, List.flatMap_cons, write_dflt, List.nil_append]
+  have := loop_accounts nl binary blocks (x.length + 1) ⟨x, 0⟩ (by simp [Stream.rest])
+  simpa [Stream.rest] using this
+
+/-- the statement the run-time oracle evaluates holds of the model for all inputs -/
+theorem main (nl : α) (binary : Bool) (blocks : List (BlockDef α)) (x : List α) :
+    Spec.C12.holds nl binary blocks x ⟨readBlockFile nl binary blocks x, writeBlockFile (readBlockFile nl binary blocks x)⟩ = true := by
+  have h := write_read_id nl binary blocks x
+  simp only [Spec.C12.holds, beq_self_eq_true, Bool.true_and, Bool.and_eq_true, beq_iff_eq]
+  exact ⟨h, h⟩
+
+/-- **Dispatch**: a region goes to the first declared block whose begin pattern is
+found in the peeked unit — `findIdx?` returns the least such index -/
+theorem dispatch_first (nl : α) (blocks : List (BlockDef α)) (peek : List α) (i : Nat)
+    (h : blocks.findIdx? (fun b => search nl b.begin_ peek) = some i) :
+    (∃ hi : i < blocks.length, search nl (blocks[i]).begin_ peek = true) ∧
+    ∀ j (hj : j < i) (hjl : j < blocks.length), search nl (blocks[j]).begin_ peek = false := by
+  rw [List.findIdx?_eq_some_iff_getElem] at h
+  obtain ⟨hi, hm, hlt⟩ := h
+  exact ⟨⟨hi, hm⟩, fun j hj hjl => by simpa using hlt j hj⟩
+
+/-- non-vacuity: an unterminated block at the end of the input, no final newline -/
+example :
+    let b : BlockDef Char := ⟨⟨false, Re.lit "BEG".toList⟩, ⟨false, Re.lit "END".toList⟩⟩
+    readBlockFile '\n' false [b] "x\n BEG 1\nEND\nBEG".toList =
+      [.dflt [], .dflt "x\n".toList, .block 0 [" BEG 1\n".toList, "END\n".toList], .block 0 ["BEG".toList]] := by
+  decide
 
 end Props.C12
